@@ -176,7 +176,8 @@ Definition fdef_of (f : sfun) : fdef :=
                   | _ => wrapper LF (sf_kind f) (build_contracts f)
                   end;
      f_body := body_of f;
-     f_accepts := fun a k => match sf_stack f with [] => is_some (call_bind (sf_sig f) a k) | _ => true end |}.
+     f_accepts := fun a k => match sf_stack f with [] => is_some (call_bind (sf_sig f) a k) | _ => true end;
+     f_binds := fun a k => is_some (call_bind (sf_sig f) a k) |}.
 Fixpoint ftab_of (fs : list sfun) (n : fid) : option fdef :=
   match fs with [] => None | f :: t => if String.eqb (sf_name f) n then Some (fdef_of f) else ftab_of t n end.
 (* dispatchers: deal.dispatch objects with their registered implementations *)
@@ -187,7 +188,7 @@ Definition contracts_of_tab (fs : list sfun) (n : fid) : option fid :=
 Definition ftab_with (fs : list sfun) (ds : list (fid * list fid)) (n : fid) : option fdef :=
   match lookup n ds with
   | Some impls => Some {| f_kind := KSync; f_wrapper := DispatchCall.run (contracts_of_tab fs) {| d_functions := impls |};
-                          f_body := fun _ _ => Ret VNone; f_accepts := fun _ _ => true |}
+                          f_body := fun _ _ => Ret VNone; f_accepts := fun _ _ => true; f_binds := fun _ _ => true |}
   | None => ftab_of fs n
   end.
 
